@@ -510,6 +510,36 @@ func (c *c15Case) runV2(api string) {
 		if len(pass1) != len(pass2) {
 			t.Cover("v2:counting-and-writing-pass-loads-differ")
 		}
+		// the same into a FILE that already holds a preamble, its write position behind it (a destination
+		// that can seek): the archive goes where the destination stands, byte for byte what the buffer got
+		if good && c.d.Seed%3 == 0 {
+			if w3, err := carv2.NewSelectiveWriter(bg, &ls, root, c.sel, opts...); err == nil {
+				log.take()
+				fp := filepath.Join(lab.TempDir("c15f"), "dest.bin")
+				defer os.RemoveAll(filepath.Dir(fp))
+				pre := []byte("16-byte preamble")
+				f, ferr := os.OpenFile(fp, os.O_RDWR|os.O_CREATE|os.O_TRUNC, 0o644)
+				if ferr != nil {
+					panic(ferr)
+				}
+				f.Write(pre)
+				n3, werr := w3.WriteTo(f)
+				f.Close()
+				fileLog := log.take()
+				got, _ := os.ReadFile(fp)
+				if werr != nil {
+					t.ViolateD(api+"(file behind a preamble)/"+class+"/unexpected-error", c.detail(pass2, map[string]any{"error": werr.Error()}), "%s into a file failed: %v", api, werr)
+				} else if len(got) != len(pre)+buf.Len() || !bytes.Equal(got[:len(pre)], pre) || n3 != int64(buf.Len()) {
+					t.ViolateD(api+"(file behind a preamble)/"+class+"/position-or-count", c.detail(pass2, map[string]any{"returned": n3, "file_len": len(got), "want_len": len(pre) + buf.Len()}),
+						"%s into a file positioned behind a %d-byte preamble: returned %d, the file has %d bytes (want %d, the preamble intact)", api, len(pre), n3, len(got), len(pre)+buf.Len())
+				} else {
+					// what follows the preamble is judged like any other output (the order of index records that
+					// share a digest is not fixed, so the two outputs need not be byte-identical)
+					c.checkV2(api+"(file behind a preamble)", class, got[len(pre):], fileLog)
+				}
+				t.Cover("writeto-a-file-behind-a-preamble")
+			}
+		}
 		// one Writer, a failed attempt (the destination breaks midway), then another attempt on a healthy
 		// destination: the second output is the archive again, whatever the first attempt left behind
 		if good && buf.Len() > 2 {
